@@ -114,6 +114,25 @@ func init() {
 		}
 		return self.(StringDict).Copy(), nil
 	}, 0, "copy() -> a shallow copy of D")
+
+	StringDictType.Dict["pop"] = MustNewMethod("pop", func(self Object, args Tuple) (Object, error) {
+		var key, dflt Object
+		err := UnpackTuple(args, nil, "pop", 1, 2, &key, &dflt)
+		if err != nil {
+			return nil, err
+		}
+		d := self.(StringDict)
+		if str, ok := key.(String); ok {
+			if res, ok := d[string(str)]; ok {
+				delete(d, string(str))
+				return res, nil
+			}
+		}
+		if dflt != nil {
+			return dflt, nil
+		}
+		return nil, ExceptionNewf(KeyError, "%v", key)
+	}, 0, "pop(k[,d]) -> v, remove specified key and return the corresponding value; d or KeyError if absent")
 }
 
 // String to object dictionary
